@@ -1,0 +1,6 @@
+//go:build !verif
+
+package pool
+
+// verifYield is a no-op without the verif build tag.
+func verifYield(string) {}
